@@ -17,7 +17,7 @@ FILES = ["solvor/dlx.py", "solvor/types.py"]
 FUNCTIONS = ["solvor.dlx.solve_exact_cover (incl. nested search)", "solvor.dlx._build_links", "solvor.dlx._cover", "solvor.dlx._uncover"]
 BOUNDS = {
     "quick": "every 0/1 matrix of shapes 1x1..3x3, 2x4, 4x2, 4x3 (cells symbolic), every secondary-column subset for <=3 columns (3 subsets "
-             "for 4), find_all on/off, default and string column names; max_solutions>=0 and max_iter>=0 symbolic Ints on shapes up to 3x3; "
+             "for 4), find_all on/off, default / string / 1-based / reversed integer column labels; max_solutions>=0 and max_iter>=0 symbolic Ints on shapes up to 3x3; "
              "cover/uncover inverse law (single and nested LIFO pair) on every matrix up to 3x3 and 4x3",
     "thorough": "adds 3x4, 4x4 (all 65536 matrices, no secondary / last column secondary), 5x3, symbolic limits up to 3x4",
 }
@@ -63,8 +63,16 @@ def h_dlx(s, r, c, sec, find_all, names=False, sym_limits=False, twice=False):
     mod = importlib.import_module("solvor.dlx")
     cells = [[s.bool("m%d_%d" % (i, j)) for j in range(c)] for i in range(r)]
     matrix = [[1 if bool(cells[i][j]) else 0 for j in range(c)] for i in range(r)]  # every cell is read by _build_links anyway
-    colnames = ["c%d" % j for j in range(c)] if names else None
-    secondary = [("c%d" % j if names else j) for j in sec]
+    # column labels: default positions, strings, 1-based ints, reversed ints (labels that are ints but differ from positions)
+    if names in (True, "str"):
+        colnames = ["c%d" % j for j in range(c)]
+    elif names == "onebased":
+        colnames = [j + 1 for j in range(c)]
+    elif names == "reversed":
+        colnames = [c - 1 - j for j in range(c)]
+    else:
+        colnames = None
+    secondary = [(colnames[j] if colnames else j) for j in sec]
     kw = {}
     max_solutions = max_iter = None
     if sym_limits:
@@ -237,6 +245,13 @@ def items(tier, rng):
                 if cells >= 8:
                     it["split"] = min(cells, 7 if cells < 16 else 11)
                 out.append(it)
+                if sec and c >= 2 and (cells <= 6 or (cells <= 9 and len(sec) == 1) or not q) and fa:
+                    for mode in ("onebased", "reversed"):
+                        it2 = {"name": "dlx_lbl_%dx%d_s%s_%s" % (r, c, "".join(map(str, sec)), mode), "harness": "h_dlx",
+                               "params": {"r": r, "c": c, "sec": sec, "find_all": True, "names": mode}}
+                        if cells >= 8:
+                            it2["split"] = 7
+                        out.append(it2)
         lim_ok = cells <= 9 or (not q and cells <= 12)
         if lim_ok:
             for sec in (secs[:1] + secs[-1:] if q else secs[:2] + secs[-1:]):
